@@ -88,11 +88,6 @@ func NewProxy(ID string, source *ConnSource, destFactory DestConnFactory, hashra
 	return proxy
 }
 
-var (
-	minerSubscribeReceived = false
-	//TODO: enforce message order validation
-)
-
 // runs proxy until handshake is done
 func (p *Proxy) Connect(ctx context.Context) error {
 	err := NewHandlerFirstConnect(p).Connect(ctx)
